@@ -528,6 +528,10 @@ package lua
 //@ ensures  "shared": forall u *Upvalue :: old(inList(ls.uvcache, u)) && u.index == idx ==> result == u
 //@ ensures  "fresh-otherwise": (forall u *Upvalue :: old(inList(ls.uvcache, u)) ==> u.index != idx) ==> fresh(result)
 //@ ensures  "others-untouched": forall u *Upvalue :: old(inList(ls.uvcache, u)) ==> u.index == old(u.index) && u.closed == old(u.closed) && u.reg == old(u.reg) && u.value == old(u.value)
+// insertion keeps every link: an existing element keeps its successor, except the predecessor of the new element, whose
+// old successor becomes the new element's successor; inserting at the head makes the old head the new element's successor
+//@ ensures  "links-kept-when-found": !fresh(result) ==> ls.uvcache == old(ls.uvcache) && (forall u *Upvalue :: old(inList(ls.uvcache, u)) ==> u.next == old(u.next))
+//@ ensures  "links-kept-when-inserted": fresh(result) ==> (ls.uvcache == old(ls.uvcache) || (ls.uvcache == result && result.next == old(ls.uvcache))) && (forall u *Upvalue :: old(inList(ls.uvcache, u)) ==> u.next == old(u.next) || (u.next == result && result.next == old(u.next)))
 //@ modifies ls.uvcache, type Upvalue.next
 //@ loop 1 invariant (forall u *Upvalue :: inList(uv, u) ==> inList(ls.uvcache, u)) && (prev == nil || (inList(ls.uvcache, prev) && prev.next == uv && prev.index < idx)) && (prev == nil ==> uv == ls.uvcache) && next == nil
 //@ loop 1 invariant forall u *Upvalue :: inList(ls.uvcache, u) && !inList(uv, u) ==> u.index < idx
